@@ -86,12 +86,23 @@ def atomic_store(off, n):
     return n <= 4 and off % 4 == 0
 
 
+def is_jtmp(path):
+    """`<journal>.tmp` (the new file of a head drop), as opposed to `<journal>.meta.tmp`"""
+    return isinstance(path, str) and path.endswith(".tmp") and not path.endswith(".meta.tmp")
+
+
 class Recorder(object):
+    """Primitive writes in program order, each with its target file:
+       journal file      ("R", n) ("S", off, bytes)
+       <journal>.meta    ("TC",) ("TW", data) ("TM",)
+       <journal>.tmp     ("JR",) ("JC",) ("JW", data) ("JZ", n) ("JS", off, bytes) ("JM",)"""
+
     def __init__(self):
         self.log = []
         self.kill = None
         self.dead = False
         self.maps = []          # real mmap objects created through the shim
+        self.files = []         # real file objects opened 'r+b' by ResizableFile
 
     def begin(self, kill=None):
         self.log = []
@@ -106,13 +117,21 @@ class Recorder(object):
         self.dead = True
         raise Killed()
 
-    def resize(self, mm, n):
+    def atomic(self, kind, action, *args):
+        """a primitive that happens entirely or not at all"""
+        if self._due():
+            self._die()
+        r = action(*args)
+        self.log.append((kind,))
+        return r
+
+    def resize(self, mm, n, jt):
         if self._due():
             self._die()
         mm.resize(n)
-        self.log.append(("R", n))
+        self.log.append(("JZ" if jt else "R", n))
 
-    def store(self, mm, start, values):
+    def store(self, mm, start, values, jt):
         values = bytes(values)
         if self._due():
             t = self.kill[1]
@@ -121,16 +140,10 @@ class Recorder(object):
                 mm[start:start + t] = values[:t]
             self._die()
         mm[start:start + len(values)] = values          # raises IndexError when it does not fit (D8)
-        self.log.append(("S", start, values))
+        self.log.append(("JS" if jt else "S", start, values))
 
-    def tmp_create(self, path):
-        if self._due():
-            self._die()
-        f = builtins.open(path, "wb")
-        self.log.append(("TC",))
-        return f
-
-    def tmp_write(self, f, data):
+    def file_write(self, kind, f, data):
+        """content written to a freshly created file and flushed (TW: .meta.tmp, JW: <journal>.tmp)"""
         if self._due():
             t = min(self.kill[1], len(data))
             if t > 0:
@@ -139,21 +152,16 @@ class Recorder(object):
             self._die()
         f.write(data)
         f.flush()
-        self.log.append(("TW", bytes(data)))
-
-    def tmp_move(self, src, dst):
-        if self._due():
-            self._die()
-        _real_shutil.move(src, dst)
-        self.log.append(("TM",))
+        self.log.append((kind, bytes(data)))
 
 
 class MmapProxy(object):
-    """forwards to the real mapping; records resize and slice stores"""
+    """forwards to the real mapping; records resize and slice stores (with the file they go to)"""
 
-    def __init__(self, rec, mm):
+    def __init__(self, rec, mm, jt):
         self._rec = rec
         self._mm = mm
+        self._jt = jt
 
     def size(self):
         return self._mm.size()
@@ -162,7 +170,7 @@ class MmapProxy(object):
         return len(self._mm)
 
     def resize(self, n):
-        self._rec.resize(self._mm, n)
+        self._rec.resize(self._mm, n, self._jt)
 
     def __getitem__(self, key):
         return self._mm[key]
@@ -172,7 +180,7 @@ class MmapProxy(object):
             if key.stop is not None and key.stop - key.start != len(values):
                 self._mm[key] = values      # let the real mapping raise its own error
                 raise AssertionError("unreachable: slice of the wrong size was accepted")
-            self._rec.store(self._mm, key.start, values)
+            self._rec.store(self._mm, key.start, values, self._jt)
         else:
             raise AssertionError("journal harness: unexpected mmap store %r" % (key,))
 
@@ -193,21 +201,28 @@ class _MmapShim(object):
     def __init__(self, rec):
         self._rec = rec
 
-    def mmap(self, *a, **k):
-        mm = _real_mmap.mmap(*a, **k)
+    def mmap(self, fileno, *a, **k):
+        mm = _real_mmap.mmap(fileno, *a, **k)
         self._rec.maps.append(mm)
-        return MmapProxy(self._rec, mm)
+        try:
+            target = os.readlink("/proc/self/fd/%d" % fileno)
+        except OSError:
+            target = ""
+        return MmapProxy(self._rec, mm, is_jtmp(target))
 
     def __getattr__(self, name):
         return getattr(_real_mmap, name)
 
 
-class _TmpFile(object):
-    """`.meta.tmp` opened 'wb': buffers write(), the real write happens at flush()"""
+class _NewFile(object):
+    """a file opened 'wb' by the code under test whose creation and content are primitives:
+    `.meta.tmp` (TC at open, TW at flush) and `<journal>.tmp` (JC at open, JW when the written
+    content reaches the file: flush or close).  write() is buffered until then."""
 
-    def __init__(self, rec, path):
+    def __init__(self, rec, path, kinds):
         self._rec = rec
-        self._f = rec.tmp_create(path)
+        self._kinds = kinds
+        self._f = rec.atomic(kinds[0], builtins.open, path, "wb")
         self._buf = b""
 
     def write(self, data):
@@ -217,7 +232,7 @@ class _TmpFile(object):
     def flush(self):
         if self._buf:
             data, self._buf = self._buf, b""
-            self._rec.tmp_write(self._f, data)
+            self._rec.file_write(self._kinds[1], self._f, data)
 
     def close(self):
         try:
@@ -239,15 +254,38 @@ class _ShutilProxy(object):
         self._rec = rec
 
     def move(self, src, dst, *a, **k):
-        self._rec.tmp_move(src, dst)
+        if isinstance(src, str) and src.endswith(".meta.tmp"):
+            self._rec.atomic("TM", _real_shutil.move, src, dst)
+        elif is_jtmp(src):
+            self._rec.atomic("JM", _real_shutil.move, src, dst)
+        else:
+            _real_shutil.move(src, dst)
         return dst
 
     def __getattr__(self, name):
         return getattr(_real_shutil, name)
 
 
+class _OsProxy(object):
+    """stands in for module `os` inside pysyncobj.journal: os.remove of `<journal>.tmp` is a primitive"""
+
+    def __init__(self, rec):
+        self._rec = rec
+
+    def remove(self, path, *a, **k):
+        if is_jtmp(path):
+            return self._rec.atomic("JR", os.remove, path)
+        return os.remove(path, *a, **k)
+
+    unlink = remove
+
+    def __getattr__(self, name):
+        return getattr(os, name)
+
+
 class patched(object):
-    """context manager: install the three module globals of pysyncobj.journal, restore on exit"""
+    """context manager: install the module globals `open`, `shutil`, `mmap`, `os` of pysyncobj.journal,
+    restore them on exit"""
 
     def __init__(self, jm, rec):
         self.jm, self.rec = jm, rec
@@ -256,17 +294,23 @@ class patched(object):
         jm, rec = self.jm, self.rec
         self.had_open = "open" in jm.__dict__
         self.old_open = jm.__dict__.get("open")
-        self.old_shutil = jm.shutil
-        self.old_mmap = jm.mmap
+        self.old = (jm.shutil, jm.mmap, jm.os)
 
         def _open(path, mode="r", *a, **k):
-            if isinstance(path, str) and path.endswith(".meta.tmp") and mode == "wb":
-                return _TmpFile(rec, path)
-            return builtins.open(path, mode, *a, **k)
+            if isinstance(path, str) and mode == "wb":
+                if path.endswith(".meta.tmp"):
+                    return _NewFile(rec, path, ("TC", "TW"))
+                if is_jtmp(path):
+                    return _NewFile(rec, path, ("JC", "JW"))
+            f = builtins.open(path, mode, *a, **k)
+            if mode == "r+b":
+                rec.files.append(f)
+            return f
 
         jm.open = _open
         jm.shutil = _ShutilProxy(rec)
         jm.mmap = _MmapShim(rec)
+        jm.os = _OsProxy(rec)
         return self
 
     def __exit__(self, *exc):
@@ -275,8 +319,7 @@ class patched(object):
             jm.open = self.old_open
         else:
             del jm.open
-        jm.shutil = self.old_shutil
-        jm.mmap = self.old_mmap
+        jm.shutil, jm.mmap, jm.os = self.old
         return False
 
 
@@ -332,12 +375,14 @@ def ents_str(es):
 
 
 def prim_str(p, jm):
-    if p[0] == "R":
-        return "R%d" % p[1]
-    if p[0] == "S":
-        return "S%d:%d:%d" % (p[1], len(p[2]), adler(p[2]))
+    if p[0] in ("R", "JZ"):
+        return "%s%d" % (p[0], p[1])
+    if p[0] in ("S", "JS"):
+        return "%s%d:%d:%d" % (p[0], p[1], len(p[2]), adler(p[2]))
     if p[0] == "TW":
         return "TW" + meta_value_str(jm, p[1])
+    if p[0] == "JW":
+        return "JW%d:%d" % (len(p[1]), adler(p[1]))
     return p[0]
 
 
@@ -421,17 +466,13 @@ class Real(object):
         self.j._destroy()
 
     def abandon(self):
-        """kill -9: no flush, no _destroy; only release the handles (file content is unaffected)"""
-        rf = self.j._FileJournal__journalFile
-        for mm in self.rec.maps:
+        """kill -9: no flush, no _destroy; only release the handles of every file this object ever
+        mapped (journal and, inside a head drop, <journal>.tmp); file content is unaffected"""
+        for h in self.rec.maps + self.rec.files:
             try:
-                mm.close()
+                h.close()
             except Exception:
                 pass
-        try:
-            rf._ResizableFile__f.close()
-        except Exception:
-            pass
 
 
 def reopen(real, style):
@@ -455,13 +496,17 @@ def _read(p):
         return None
 
 
+SUFFIXES = ("", ".meta", ".meta.tmp", ".tmp")
+
+
 def snapshot(path):
-    """(journal bytes, .meta bytes | None, .meta.tmp bytes | None)"""
-    return (_read(path), _read(path + ".meta"), _read(path + ".meta.tmp"))
+    """image of the directory: (journal bytes, .meta bytes | None, .meta.tmp bytes | None,
+    <journal>.tmp bytes | None)"""
+    return tuple(_read(path + sfx) for sfx in SUFFIXES)
 
 
 def write_snapshot(path, snap):
-    for suffix, data in zip(("", ".meta", ".meta.tmp"), snap):
+    for suffix, data in zip(SUFFIXES, snap):
         p = path + suffix
         if data is None:
             if os.path.exists(p):
@@ -472,7 +517,7 @@ def write_snapshot(path, snap):
 
 
 def remove_files(path):
-    for suffix in ("", ".meta", ".meta.tmp"):
+    for suffix in SUFFIXES:
         try:
             os.unlink(path + suffix)
         except FileNotFoundError:
@@ -493,10 +538,15 @@ def tmp_str(jm, path):
     return "torn" if v == "torn" else "full:" + v
 
 
+def jt_str(data):
+    return "absent" if data is None else "%d:%d" % (len(data), adler(data))
+
+
 def disk_str(jm, path, data=None):
     if data is None:
         data = _read(path) or b""
-    return "fsize=%d fsum=%d meta=%s tmp=%s" % (len(data), adler(data), meta_str(jm, path), tmp_str(jm, path))
+    return "fsize=%d fsum=%d meta=%s tmp=%s jt=%s" % (len(data), adler(data), meta_str(jm, path), tmp_str(jm, path),
+                                                      jt_str(_read(path + ".tmp")))
 
 
 def apply_prims(snap, prims, k, t):
@@ -504,23 +554,38 @@ def apply_prims(snap, prims, k, t):
     bytes of primitive k when that one can be torn"""
     f = bytearray(snap[0])
     meta, tmp = snap[1], snap[2]
+    jt = None if snap[3] is None else bytearray(snap[3])
 
     def one(p, torn=None):
-        nonlocal meta, tmp, f
-        if p[0] == "R":
-            if torn is None:
+        nonlocal meta, tmp, f, jt
+        if p[0] in ("R", "JZ"):
+            g = f if p[0] == "R" else jt
+            if torn is None and g is not None:
                 n = p[1]
-                if n >= len(f):
-                    f.extend(b"\0" * (n - len(f)))
+                if n >= len(g):
+                    g.extend(b"\0" * (n - len(g)))
                 else:
-                    del f[n:]
-        elif p[0] == "S":
+                    del g[n:]
+        elif p[0] in ("S", "JS"):
+            g = f if p[0] == "S" else jt
             off, bs = p[1], p[2]
             if torn is not None:
                 if atomic_store(off, len(bs)):
                     return
                 bs = bs[:torn]
-            f[off:off + len(bs)] = bs
+            if g is not None:
+                g[off:off + len(bs)] = bs
+        elif p[0] == "JR":
+            if torn is None:
+                jt = None
+        elif p[0] == "JC":
+            if torn is None:
+                jt = bytearray()
+        elif p[0] == "JW":
+            jt = bytearray(p[1] if torn is None else p[1][:torn])
+        elif p[0] == "JM":
+            if torn is None and jt is not None:
+                f, jt = jt, None
         elif p[0] == "TC":
             if torn is None:
                 tmp = b""
@@ -534,14 +599,14 @@ def apply_prims(snap, prims, k, t):
         one(p)
     if k < len(prims):
         one(prims[k], torn=t)
-    return (bytes(f), meta, tmp)
+    return (bytes(f), meta, tmp, None if jt is None else bytes(jt))
 
 
 def prim_len(p):
     """length of a tearable primitive, 0 for the atomic ones"""
-    if p[0] == "S" and not atomic_store(p[1], len(p[2])):
+    if p[0] in ("S", "JS") and not atomic_store(p[1], len(p[2])):
         return len(p[2])
-    if p[0] == "TW":
+    if p[0] in ("TW", "JW"):
         return len(p[1])
     return 0
 
@@ -583,6 +648,53 @@ def open_image(jm, path, img):
             "ents": r.entries(), "prims": r.open_prims, "disk": disk}
 
 
+def dry_prims(jm, scratch, real, op):
+    """the primitives `op` issues at the current state of `real`: the op is run on a copy of the files"""
+    img, killed, done, exc = real_kill(jm, scratch, snapshot(real.path), real.pending_ci(), op, 10 ** 9, 0)
+    remove_files(scratch)
+    return done
+
+
+def concretise_crashat(jm, scratch, real, aop):
+    """["crashat", ["delto", n], k, t]: really kill the head drop when primitive k is due (t bytes of it
+    done), then reopen.  k / t may be floats in [0, 1): fraction of the primitives up to the rename /
+    of the bytes of primitive k.  The kill is always placed at or before the rename (k <= its index),
+    so the list must be unchanged; on a tree without the rename (clear + re-add) k becomes 0."""
+    _, op, k, t = aop
+    assert op[0] == "delto", aop
+    done = dry_prims(jm, scratch, real, op)
+    jm_idx = next((i for i, p in enumerate(done) if p[0] == "JM"), 0)
+    k = int(k * (jm_idx + 1)) if isinstance(k, float) else k
+    k = max(0, min(k, jm_idx))
+    L = prim_len(done[k]) if k < len(done) else 0
+    t = int(t * L) if isinstance(t, float) else t
+    t = max(0, min(t, max(L - 1, 0)))
+    return ["crashat", list(op), k, t], done
+
+
+def crash_reopen(real, op, k, t):
+    """kill `op` at (k, t) on the live object, abandon it, reopen the same path"""
+    killed = False
+    try:
+        real.apply(op, kill=(k, t))
+    except Killed:
+        killed = True
+    real.abandon()
+    return Real(real.jm, real.path, real.factory), killed
+
+
+def model_crash_load(model, op, k, t):
+    """make the model's own crash image of `op` at (k, t) its new state (`load`); None when that image
+    has a `.meta.tmp` (load cannot carry it)"""
+    q = "%d %d %s" % (k, t, op_line(op))
+    kv = parse_kv(model.ask("crash " + q).split(" | ")[0])
+    if kv.get("tmp") != "absent":
+        return None
+    img = model.ask("crashimg " + q)
+    jt = model.ask("crashjt " + q)
+    return model.ask("load %s %s%s" % (img, kv.get("meta", "none"), "" if jt == "absent" else " " + jt))
+
+
 # ---------------------------------------------------------------------------------------------------
 # the model
 # ---------------------------------------------------------------------------------------------------
@@ -620,6 +732,10 @@ class Model(object):
         h = self.ask("img")
         return b"" if h == "-" else bytes.fromhex(h)
 
+    def jt(self):
+        h = self.ask("jt")
+        return None if h == "absent" else (b"" if h == "-" else bytes.fromhex(h))
+
     def close(self):
         self.d.close()
 
@@ -655,7 +771,8 @@ def ref_apply(ref, op):
         del ref[op[1]:]
     elif k == "delto":
         ref[:] = ref[op[1]:]
-    elif k == "reopen":
+    elif k in ("reopen", "crashat"):
+        # (crashat = head drop killed before its rename, then reopened: the list is unchanged)
         # a str command comes back as its utf-8 bytes after a reopen (SyncObj only stores bytes)
         ref[:] = [(to_bytes(c), i, t) for (c, i, t) in ref]
     return ref
@@ -684,10 +801,16 @@ def short_ents(es, limit=6):
     return "[" + " ".join(s) + "]"
 
 
+D15_SIGNATURE = "journal.deleteEntriesTo:kill-between-clear-and-readd"
+D8_SIGNATURE = "journal.ResizableFile.write:grow-once-record-larger-than-file"
+
+
 def crash_monitor(op, old, res, ci, allowed_ci):
     """The crash clause of C08 on the REAL reopened journal.  `old` = entries before the interrupted
-    op, `res` = entries after reopen (None = reopen raised).  Returns None or (signature, what);
-    signature "D15" marks the known head-drop loss."""
+    op, `res` = entries after reopen.  Returns None or (signature, what).  For deleteEntriesTo the
+    statement admits old[a:] with a <= n (the repaired code only ever leaves old or old[n:]; anything
+    in between would also show up as a disagreement with the model); a proper prefix of the entries to
+    keep is the head-drop loss D15 (clear + re-add killed in between)."""
     k = op[0]
     if ci not in allowed_ci:
         return ("journal.meta:commit-index-never-set",
@@ -715,7 +838,7 @@ def crash_monitor(op, old, res, ci, allowed_ci):
             return None
         kept = old[a_max:]
         if len(res) < len(kept) and res == kept[:len(res)]:
-            return ("D15", "deleteEntriesTo(%d) on %d entries: after kill+reopen only %d of the %d entries to keep survive %s"
+            return (D15_SIGNATURE, "deleteEntriesTo(%d) on %d entries: after kill+reopen only %d of the %d entries to keep survive %s"
                     % (op[1], n, len(res), len(kept), short_ents(res)))
         return ("journal.deleteEntriesTo:not-a-range-of-previous-entries",
                 "deleteEntriesTo(%d) on %d entries: after kill+reopen %s" % (op[1], n, short_ents(res)))
@@ -723,10 +846,6 @@ def crash_monitor(op, old, res, ci, allowed_ci):
         if res != old:
             return ("journal.%s:entries-changed" % k, "before %s after %s" % (short_ents(old), short_ents(res)))
     return None
-
-
-D15_SIGNATURE = "journal.deleteEntriesTo:kill-between-clear-and-readd"
-D8_SIGNATURE = "journal.ResizableFile.write:grow-once-record-larger-than-file"
 
 
 # ---------------------------------------------------------------------------------------------------
@@ -762,6 +881,8 @@ def resolve(aop, view):
         return ["delfrom", max(view["len"] - aop[1], 0)]
     if k == "delto_back":
         return ["delto", max(view["len"] - aop[1], 0)]
+    if k == "crashat":
+        return ["crashat", resolve(aop[1], view), aop[2], aop[3]]
     return list(aop)
 
 
@@ -773,6 +894,7 @@ class RandomSource(object):
         self.idx = rng.choice([1, 1, 1, 2, 1000, U32 - 3])
         self.term = 1
         self.profile = rng.choice(["small", "small", "growth", "mixed", "mixed", "delete"])
+        self.crashat = True
 
     def _idx(self):
         r = self.rng.random()
@@ -834,8 +956,12 @@ class RandomSource(object):
             back = rng.choice([0, 1, 1, 2, 9, 10, 11, 20, 25, rng.randrange(n + 1)])
             return ["delfrom", rng.choice([max(n - back, 0), n + 3, rng.randrange(n + 1)])] if rng.random() < 0.85 \
                 else ["delfrom", 0]
-        if r < 0.20 + w_del + 0.06:
-            return ["delto", rng.choice([0, 1, 1, 2, n, max(n - 1, 0), n + 2, rng.randrange(n + 1)])]
+        if r < 0.20 + w_del + 0.08:
+            op = ["delto", rng.choice([0, 1, 1, 2, n, max(n - 1, 0), n + 2, rng.randrange(n + 1)])]
+            if self.crashat and rng.random() < 0.3:
+                # head drop killed at or before its rename (leaves a stale <journal>.tmp), then reopened
+                return ["crashat", op, rng.choice([rng.random(), 0.999]), rng.random()]
+            return op
         return self._add(view)
 
 
@@ -896,7 +1022,7 @@ def run_case(jm, model, path, source, factory="FileJournal", cov=None, rng=None,
                     % (len(ops), ops[-1][:3] if ops else "open", short_ents(got), short_ents(ref)))
             return
         mem = [mj[i] for i in range(len(mj))]
-        if ops and ops[-1][0] == "reopen":
+        if ops and ops[-1][0] in ("reopen", "crashat"):
             mem = [(to_bytes(c), i, t) for (c, i, t) in mem]
         if [(to_bytes(c), i, t) for (c, i, t) in got] != [(to_bytes(c), i, t) for (c, i, t) in mem] or len(real.j) != len(mj):
             violate(site, "memoryjournal-divergence", "after op #%d FileJournal %s, MemoryJournal %s"
@@ -926,6 +1052,12 @@ def run_case(jm, model, path, source, factory="FileJournal", cov=None, rng=None,
                 disagree("file image differs at byte %d after op #%d" % (pos, len(ops)),
                          mi[max(pos - 8, 0):pos + 24].hex(), data[max(pos - 8, 0):pos + 24].hex())
                 return
+            jt = _read(path + ".tmp")
+            if jt is not None:
+                cov.hit("stale_tmp_compared")
+                if model.jt() != jt:
+                    disagree("content of <journal>.tmp differs after op #%d" % len(ops), "-", jt[:64].hex())
+                    return
         if ents:
             cov.hit("ents_compared")
             me = model.ask("ents")
@@ -952,6 +1084,9 @@ def run_case(jm, model, path, source, factory="FileJournal", cov=None, rng=None,
             op = source.next(real.view())
             if op is None:
                 break
+            stale = os.path.exists(path + ".tmp")
+            if op[0] == "crashat":
+                op, _ = concretise_crashat(jm, path + "-dry", real, op)
             ops.append(op)
             k = op[0]
             cov.hit("op." + k)
@@ -959,11 +1094,26 @@ def run_case(jm, model, path, source, factory="FileJournal", cov=None, rng=None,
             # ---- real
             impl_err = None
             prims = None
+            reply = None
             try:
                 if k == "reopen":
                     cov.hit("reopen." + op[1])
+                    if stale:
+                        cov.hit("reopen.with_stale_tmp")
                     real = reopen(real, op[1])
                     prims = real.open_prims
+                elif k == "crashat":
+                    # head drop really killed at or before its rename, then reopened; the model takes its
+                    # own crash image as the new state
+                    real, _killed = crash_reopen(real, op[1], op[2], op[3])
+                    prims = real.open_prims
+                    if os.path.exists(path + ".tmp"):
+                        cov.hit("crashat.leaves_stale_tmp")
+                    if model is not None:
+                        reply = model_crash_load(model, op[1], op[2], op[3])
+                        if reply is None:
+                            disagree("crashat: model image has a .meta.tmp", "-", "-")
+                            break
                 else:
                     prims = real.apply(op)
             except struct.error:
@@ -973,7 +1123,8 @@ def run_case(jm, model, path, source, factory="FileJournal", cov=None, rng=None,
                 violate(k, "exception:" + impl_err, "op #%d %s raised %r (file size %d, offset %d)"
                         % (len(ops), op[:3], e, old_size, real.cur()))
             # ---- model
-            reply = model.ask(op_line(op)) if model is not None else None
+            if k != "crashat":
+                reply = model.ask(op_line(op)) if model is not None else None
             if impl_err == "structError":
                 cov.hit("err.structError")
                 res["err"] = impl_err
@@ -1025,10 +1176,19 @@ def run_case(jm, model, path, source, factory="FileJournal", cov=None, rng=None,
                 cov.hit("timer.saved" if prims else "timer.idle")
             elif k == "delto":
                 cov.hit("delto.kept=%s" % ("0" if not len(real.j) else "some"))
+                kinds = [p[0] for p in prims]
+                if "JM" in kinds:
+                    cov.hit("delto.by_rename")
+                    if kinds[0] == "JR":
+                        cov.hit("delto.removes_stale_tmp")
+                    if kinds.count("JZ") > 1:
+                        cov.hit("delto.tmp_grows")
+                    if os.path.getsize(path) < old_size:
+                        cov.hit("delto.file_shrinks")
             # ---- compare + monitor
             if model is not None:
-                compare(reply, prims, k == "reopen", k == "reopen" or len(ops) % ents_every == 0)
-            monitor("reopen" if k == "reopen" else k)
+                compare(reply, prims, k in ("reopen", "crashat"), k in ("reopen", "crashat") or len(ops) % ents_every == 0)
+            monitor("reopen" if k in ("reopen", "crashat") else k)
         if model is not None and res["disagreement"] is None and res["err"] is None and real is not None \
                 and (res["violation"] is None):
             data = _read(path) or b""
@@ -1044,6 +1204,7 @@ def run_case(jm, model, path, source, factory="FileJournal", cov=None, rng=None,
             except Exception:                            # noqa
                 pass
         remove_files(path)
+        remove_files(path + "-dry")
     return res
 
 
